@@ -491,6 +491,10 @@ class SimpleCorrelator(AbstractCorrelator):
         return segment_status, status_code
 
     async def get_delivery(self, receipt: DeliverSm) -> Optional[SubmitSm]:
+        # Remove expired items first: this awaits the user application's hook, and a caller that is
+        # cancelled there (session torn down) must not have consumed the correlation yet - the SMSC
+        # will send the unanswered receipt again
+        await self._remove_expired()
         receipt_dict: Dict[str, Any] = receipt.parse_receipt()
         smsc_message_id: str = receipt_dict.get('id', '')
         item: Optional[Tuple[float, SubmitSm]] = self._delivery_store.pop(smsc_message_id, None)
@@ -514,7 +518,6 @@ class SimpleCorrelator(AbstractCorrelator):
                 if error_code > 0 or not segment_status.last_receipt:
                     segment_status.last_receipt = receipt
                 self._segment_status_store[str(ref_num)] = segment_status  # persist the update
-        await self._remove_expired()
         return submit_sm
 
     async def _remove_expired(self) -> None:
